@@ -89,3 +89,29 @@ Print Assumptions C13_retain_keeps_graph.
 Print Assumptions C13_backward_retain_true.
 Print Assumptions C13_mtl_retain_true.
 Print Assumptions C13_mtl_frees.
+
+(* ---- mtl_backward with retain_graph=False and separate heads (added): NO SELF-SABOTAGE ----
+   heads_separate: the saved-node sets of the per-task engine runs are pairwise disjoint, disjoint
+   from the trunk's and from what is already freed (the property's side condition "heads that share
+   no graph node besides the features").  It is SUFFICIENT for every engine run of the call to
+   succeed, for both flags, and NECESSARY when retain_graph=False; two heads sharing a saved node make
+   the call fail with RuntimeError. *)
+From Coq Require Import Reals.
+From TJ Require Import NumR.
+From TJ.proofs Require Import LinalgR AutojacSpec C01Proofs C02Proofs C15Proofs AcceptProofs C13MtlProofs.
+Theorem C13_mtl_no_self_sabotage : forall (P : prog R) A losses features tasks shared k retain s v,
+  wf_prog P -> shared <> [] ->
+  mtl_args_ok P losses features tasks shared k retain = true ->
+  heads_separate P s losses features tasks shared ->
+  A (mtl_matrix P features shared losses) = Ok v -> length v = total P shared ->
+  exists d' s', mtl_backward_model RN P A losses features tasks shared k retain s = (Ok d', s').
+Proof. exact mtl_no_self_sabotage. Qed.
+Print Assumptions C13_mtl_no_self_sabotage.
+Theorem C13_mtl_side_condition_is_exact : forall (P : prog R) A losses features tasks shared k s v,
+  wf_prog P -> shared <> [] ->
+  mtl_args_ok P losses features tasks shared k false = true ->
+  A (mtl_matrix P features shared losses) = Ok v -> length v = total P shared ->
+  ((exists d' s', mtl_backward_model RN P A losses features tasks shared k false s = (Ok d', s'))
+   <-> heads_separate P s losses features tasks shared).
+Proof. exact mtl_retain_false_iff. Qed.
+Print Assumptions C13_mtl_side_condition_is_exact.
